@@ -51,7 +51,7 @@ META = {
         "(R3) Every handle_* callback of the stdlib HTMLParser and unknown_decl is overridden; the Tree calls of a callback are "
         "followed through one private helper of the parser; every event produces its node (no path skips the construction under a "
         "condition a well-formed event can satisfy); callback arguments reach the constructor and the stored field unchanged; the "
-        "render template of the node class (f-strings, +, locals bound once, hoisted constants, options that are falsy in a plain "
+        "render template of the node class (f-strings, +, locals bound once, hoisted constants, options - kwargs.get(..) or named parameters with a constant default - decided for a plain "
         "render() call) re-emits exactly the delimiters the stdlib strips for that event - each table row is re-verified against "
         "the installed html/parser.py and _markupbase.py. Start tags: Tag / VoidTag / XTag begin with a helper that returns a stored "
         "field verbatim when it is not None, and the callbacks feed that field from self.get_starttag_text() - the start tag is a "
@@ -61,7 +61,7 @@ META = {
         "node class that appends ';' may only be built behind a test of self.rawdata.startswith(';', start + len(prefix) + "
         "len(name)) (start = the attribute an updatepos override sets), the other outcome stores prefix + name verbatim. Marked "
         "sections: unknown_decl must write back '<![' and the terminator html.parser stripped (']]>' for its keyword set, ']>' "
-        "otherwise; both read from _markupbase.parse_marked_section), selected by the lower-cased text before the *first* '[' of the reported text. Source-text fields: a render of the form `self.F or <rebuilt form>` is judged on the rebuilt form, and every writer of F in the module must store None, a slice of self.rawdata, get_starttag_text() or a copy of F. End tags: because html.parser lower-cases the end-tag name, the container's render must take the end tag from such a field, which the closing function stores from rawdata[start-of-construct : first '>' + 1] passed by handle_endtag. Trailing '&': when feed() ends with close() and the installed goahead(end=True) steps over an '&' + one letter without a handler, a guard dominating close() must be true exactly for those rests (checked on sample strings against html.parser's `incomplete` class, false in raw-text mode), report them through handle_data and take them out of the buffer. Inherited lexical rules: comment / CDATA terminators that admit white space and the raw-text element table without textarea/title are reported (three known findings). convert_charrefs is False on the whole path; the void "
+        "otherwise; both read from _markupbase.parse_marked_section), selected by the lower-cased text before the *first* '[' of the reported text. Source-text fields: a render of the form `self.F or <rebuilt form>` is judged on the rebuilt form, and every writer of F in the module must store None, a slice of self.rawdata, get_starttag_text() or a copy of F. End tags: because html.parser lower-cases the end-tag name, the container's render must take the end tag from such a field, which the closing function stores from rawdata[start-of-construct : first '>' + 1] passed by handle_endtag. Post-hoc writes: an override of a stdlib parse_* method that writes onto the last child of the open element after the inherited call must test the report flag and exclude the failure value the inherited method returns before reporting (both read from the sibling source). Trailing '&': when feed() ends with close() and the installed goahead(end=True) steps over an '&' + one letter without a handler, a guard dominating close() must be true exactly for those rests (checked on sample strings against html.parser's `incomplete` class, false in raw-text mode), report them through handle_data and take them out of the buffer. Inherited lexical rules: comment / CDATA terminators that admit white space and the raw-text element table without textarea/title are reported (three known findings). convert_charrefs is False on the whole path; the void "
         "table contains the 13 WHATWG void elements plus 'param'. "
         "(R4) With inplace false no mutating, iterating or returning use in strip() can see the element itself; deepcopy does not "
         "write self; the constructor copies the attribute mapping, and a copy started with copy.copy(self) replaces every mutable field (attrs, _children) on the copy. "
@@ -1127,6 +1127,11 @@ def _default_truth(t: ast.expr, _depth: int = 0) -> bool | None:
     if _depth > 4:
         return None
     if isinstance(t, ast.Name):
+        fi = enclosing_function(t)
+        if fi is not None and not fi.is_lambda and t.id in fi.params and t.id != "self" and len(_bindings(fi, t.id)) == 1:
+            d = _param_default(fi, t.id)
+            if isinstance(d, ast.Constant):
+                return bool(d.value)  # an option of render() that a plain render() / str() call leaves at its default
         v = _single_local_value(t)
         return _default_truth(v, _depth + 1) if v is not None else None
     if isinstance(t, ast.Call) and isinstance(t.func, ast.Attribute) and t.func.attr == "get" and isinstance(t.func.value, ast.Name) and 1 <= len(t.args) <= 2:
@@ -1454,6 +1459,7 @@ def r3_callbacks_and_delimiters(corpus: Corpus, rep: Report, tier: str):
         else:
             rep.ok("C16.R3", key, P.m.site(P.element.node), "every writer stores None, a slice of self.rawdata, get_starttag_text() or a copy of the field")
     _judge_end_tags(P, rep, cbmap, hp)
+    _judge_posthoc_writes(P, rep, hp, mb)
     _judge_trailing_ampersand(P, rep, hp)
     _judge_inherited_lexical_rules(P, rep, hp, mb, std)
     # (d) void elements
@@ -1549,6 +1555,85 @@ def _judge_end_tags(P: Ctx, rep: Report, cbmap: dict, hp) -> None:
         rep.violation("C16.R3", key, cb.site() if cb else site, "; ".join(problems) + ": the end tag written back is not the one in the source")
     else:
         rep.ok("C16.R3", key, site, f"self.{fld} = rawdata[start : first '>' + 1], stored by {', '.join(f.qualname for f, _ in stores)}")
+
+
+def _reads_open_element(P: Ctx, e: ast.expr, fi: FunctionInfo) -> bool:
+    """Does the expression go through the current open element (a call of a Tree method that returns the top of the stack)?"""
+    for c in ast.walk(e):
+        if isinstance(c, ast.Call) and isinstance(c.func, ast.Attribute):
+            for t2 in P.g.resolve_call(c, fi):
+                if isinstance(t2, FunctionInfo) and t2.cls is not None and t2.cls.fq == P.tree.fq and not t2.is_lambda:
+                    rets = [r for r in walk_local(t2.node) if isinstance(r, ast.Return) and r.value is not None]
+                    if len(rets) == 1 and _is_top_read(P, rets[0].value, t2):
+                        return True
+    return False
+
+
+def _judge_posthoc_writes(P: Ctx, rep: Report, hp, mb) -> None:
+    """An override of a stdlib parse_* method that, after calling the inherited method, writes onto the last child of the
+    open element (the node that call is supposed to have reported) must do so only when the call did report one: the
+    report flag is set and the returned position is not the failure value."""
+    for name, fi in P.parser.methods.items():
+        sib = hp.functions.get(f"HTMLParser.{name}") or mb.functions.get(f"ParserBase.{name}")
+        if sib is None or name.startswith("handle_"):
+            continue
+        stores = []
+        for st in walk_local(fi.node):
+            tgt = st.targets[0] if isinstance(st, ast.Assign) and len(st.targets) == 1 else None
+            if isinstance(tgt, ast.Attribute) and _reads_open_element(P, tgt.value, fi):
+                stores.append(st)
+        if not stores:
+            continue
+        sup = [n for n in walk_local(fi.node) if isinstance(n, ast.Assign) and isinstance(n.value, ast.Call) and dotted(n.value.func) == f"super().{name}" and len(n.targets) == 1 and isinstance(n.targets[0], ast.Name)]
+        if len(sup) != 1:
+            raise Unsupported(f"{fi.fq}: writes onto the last child without a single `x = super().{name}(...)`")
+        jv = sup[0].targets[0].id
+        # what the inherited method does: failure value(s) it returns before reporting, and the flag that guards the report
+        scfg = get_cfg(sib)
+        handler_calls = [c for c in walk_local(sib.node) if isinstance(c, ast.Call) and isinstance(c.func, ast.Attribute) and _is_name(c.func.value, "self") and c.func.attr.startswith(("handle_", "unknown_decl"))]
+        if not handler_calls:
+            raise Unsupported(f"stdlib {name}: no handler call found")
+        fails = set()
+        for r in walk_local(sib.node):
+            if isinstance(r, ast.Return) and r.value is not None and not any(scfg.dominates(scfg.stmt_of(c), r) for c in handler_calls):
+                try:
+                    fails.add(ast.literal_eval(r.value))
+                except ValueError:
+                    pass
+        flags = set()
+        sparams = [p_ for p_ in sib.params if p_ != "self"]
+        oparams = [p_ for p_ in fi.params if p_ != "self"]
+        for c in handler_calls:
+            for t, pol in scfg.guards(scfg.stmt_of(c)):
+                if pol and isinstance(t, ast.Name) and t.id in sparams and sparams.index(t.id) < len(oparams):
+                    flags.add(oparams[sparams.index(t.id)])
+        cfg = get_cfg(fi)
+        posparams = {p_ for p_ in oparams if p_ not in flags}
+        for st in stores:
+            key = f"{fi.fq}|the last child is written only when the inherited {name} reported a node"
+            gs = cfg.guards(st)
+            missing = []
+            for fl in sorted(flags):
+                if not any(pol and _is_name(t, fl) for t, pol in gs):
+                    missing.append(f"the `{fl}` flag is not tested (with {fl}=0 html.parser reports nothing)")
+            for fv in sorted(fails):
+                excluded = False
+                for t, pol in gs:
+                    if isinstance(t, ast.Compare) and len(t.ops) == 1 and _is_name(t.left, jv):
+                        r_ = t.comparators[0]
+                        if isinstance(r_, ast.Name) and r_.id in posparams and isinstance(t.ops[0], (ast.Gt, ast.GtE)) and pol and isinstance(fv, int) and fv < 0:
+                            excluded = True  # a position parameter is >= 0
+                        elif isinstance(r_, ast.Constant) and isinstance(r_.value, int) or (isinstance(r_, ast.UnaryOp) and isinstance(r_.op, ast.USub) and isinstance(r_.operand, ast.Constant)):
+                            rv = ast.literal_eval(r_)
+                            res = {ast.Gt: fv > rv, ast.GtE: fv >= rv, ast.Lt: fv < rv, ast.LtE: fv <= rv, ast.Eq: fv == rv, ast.NotEq: fv != rv}.get(type(t.ops[0]))
+                            if res is not None and res != pol:
+                                excluded = True
+                if not excluded:
+                    missing.append(f"the result `{jv}` is not tested against {fv!r}, which html.parser returns when the construct is unterminated and nothing was reported")
+            if missing:
+                rep.violation("C16.R3", key, fi.module.site(st), f"`{short(st, 60)}`: " + "; ".join(missing) + " - the write hits whatever element happens to be the last child (its source text is overwritten and rendered instead of it) or raises IndexError when there is none")
+            else:
+                rep.ok("C16.R3", key, fi.module.site(st), f"guarded by {', '.join(sorted(flags))} and a test of `{jv}` that excludes {sorted(fails)}")
 
 
 class _StrEval:
@@ -4558,6 +4643,16 @@ def mutants(corpus: Corpus):
     pb = H.get("parse_bogus_comment")
     rw = find_node(pb, lambda n: isinstance(n, ast.Assign) and isinstance(n.targets[0], ast.Attribute) and n.targets[0].attr == "raw") if pb else None
     add("c16-comment-source-field-fed-with-rebuilt-text", "C16.R3", rw.value if rw is not None else None, '"<!--" + self.rawdata[i + 2 : j - 1] + "-->"', "only source text is stored")
+    # the guard of a post-hoc write onto the node the inherited parse_* method reported
+    if pb is not None:
+        gi = find_node(pb, lambda n: isinstance(n, ast.If) and isinstance(n.test, ast.BoolOp) and isinstance(n.test.op, ast.And) and len(n.test.values) == 2 and any(isinstance(v, ast.Compare) for v in n.test.values))
+        if gi is not None:
+            cmp_i = next(i_ for i_, v in enumerate(gi.test.values) if isinstance(v, ast.Compare))
+            add("c16-bogus-comment-raw-written-when-unterminated", "C16.R3", gi.test, unparse(gi.test.values[1 - cmp_i]), "the last child is written only when")
+            add("c16-bogus-comment-raw-written-when-not-reported", "C16.R3", gi.test, unparse(gi.test.values[cmp_i]), "the last child is written only when")
+            add("c16-bogus-comment-raw-guard-does-not-exclude-failure", "C16.R3", gi.test.values[cmp_i], unparse(gi.test.values[cmp_i].left) + " != 0", "the last child is written only when")
+        else:
+            out.append(("c16-bogus-comment-raw-written-when-unterminated", "parse_bogus_comment has no two-part guard"))
     # classes of partial weakening of those repairs
     if ud is not None:
         sp = find_node(ud, lambda n: isinstance(n, ast.Call) and isinstance(n.func, ast.Attribute) and n.func.attr == "split" and len(n.args) == 2)
